@@ -359,3 +359,47 @@ def c_km(ctx, case):
               atol=tol * (spread + float(np.abs(X).max())) * 10)
     ctx.close(m2.average_min_distance / s**2, m1.average_min_distance, "criterion scales by s^2", rtol=tol * 100 + 1e-9,
               atol=tol * 100 * spread**2 * (1 + kap))
+
+
+# ---------------------------------------------------------------------------- ISV / JFA training
+
+def g_fa_train(draw):
+    from vf.props import c09
+
+    c = c09.g_train(draw)
+    c["jfa"] = gen.boolean(draw)
+    if not c["jfa"]:
+        c["V"] = None
+    c["init_from_seed"] = False
+    c["em"] = gen.integer(draw, 1, 2)
+    F = c["ubm"]["F"]
+    a, b, mode = affine(draw, F, c["ubm"]["scales"], 1e2)
+    c.update(a=a, b=b, mode=mode)
+    return c
+
+
+@REG.obligation("isv_jfa_training_equivariant", g_fa_train, quick=200, thorough=4000, shard_size=34)
+def c_fa_train(ctx, case):
+    """ISV/JFA training on re-coordinatised statistics (with U, V, D mapped accordingly) gives U, V, D rows scaled by a."""
+    a, b = case["a"], case["b"]
+    c2 = dict(case)
+    C, F = case["ubm"]["C"], case["ubm"]["F"]
+    arow = np.tile(a, C)
+    c2["ubm"] = tparams(case["ubm"], a, b)
+    c2["U"] = arow[:, None] * case["U"]
+    c2["V"] = arow[:, None] * case["V"] if case["jfa"] else None
+    c2["D"] = arow * case["D"]
+    c2["sessions"] = [tstats(s, a, b) for s in case["sessions"]]
+    y = np.asarray(case["y"])
+    m1 = sut.make_fa(case, em_iterations=case["em"])
+    m2 = sut.make_fa(c2, em_iterations=case["em"])
+    m1.fit(sut.sessions_of(case), y)
+    m2.fit(sut.sessions_of(c2), y)
+    sd = np.sqrt(case["ubm"]["variances"]).min(axis=0)
+    kap = float(np.max(np.abs(b) / (np.abs(a) * sd)))
+    ctx.note(nontrivial(a, b, case["ubm"]["scales"], case["ubm"]["means"]), "jfa" if case["jfa"] else "isv", "mode:" + case["mode"])
+    tol = 1e-7 * (1 + kap) * 10 ** (case["em"] - 1)
+    for name in ("U", "D") + (("V",) if case["jfa"] else ()):
+        g1, g2 = np.asarray(getattr(m1, name), float), np.asarray(getattr(m2, name), float)
+        back = g2 / (arow[:, None] if g2.ndim == 2 else arow)
+        ctx.close(back, g1, "%s rows scale with the features" % name, rtol=tol, atol=tol * (np.abs(g1).max() + 1e-300))
